@@ -446,6 +446,20 @@ impl<'o> Explore<'o> {
         if let Some(f) = f {
             self.out.fail(i, f);
         }
+        // the concrete type of a bus error must not matter: the same script with the error boxed as an I/O
+        // error, a frame error (bad checksum, invalid frame, length mismatch) gives the same conversation
+        if c.script.iter().any(|s| s == "bus") {
+            for kind in 1..crate::implside::BUS_ERR_KINDS {
+                crate::implside::BUS_ERR_KIND.with(|k| k.set(kind));
+                let c2 = run_conv(&c.op, c.t, c.a, &c.items, &c.items_tok, &c.script);
+                crate::implside::BUS_ERR_KIND.with(|k| k.set(0));
+                self.out.stat("ctrl.bus-error-kind-rerun");
+                if c2.run.trace != c.run.trace || c2.run.outcome != c.run.outcome {
+                    self.out.fail(i, format!("{} a bus error of concrete type #{} (1,2 = io::Error, 3 = FrameError::BadChecksum, 4 = InvalidFrame, 5 = FrameDataMismatch) changed the conversation: outcome {} instead of {}, {} messages instead of {}", self.prop, kind, c2.run.outcome, c.run.outcome, c2.run.trace.len(), c.run.trace.len()));
+                    break;
+                }
+            }
+        }
     }
 
     /// Breadth-first: extend every script that was consumed entirely with every alphabet symbol.
@@ -566,6 +580,39 @@ fn explore_all(prop: &str, thorough: bool, rng: &mut Rng, out: &mut Out) {
         }
     }
     many_big_pages(&mut ex, rng);
+    long_polls(&mut ex);
+}
+
+/// Very long polling phases: a sign that reports "in progress" a great many times and then the target state
+/// (or the trigger, or something else) — the controller keeps polling as long as the sign says so.
+fn long_polls(ex: &mut Explore<'_>) {
+    let a = 3u16;
+    for (op, prog, target, trigger, oper) in [
+        ("shw", State::PageShowInProgress, State::PageShown, State::PageLoaded, Operation::ShowLoadedPage),
+        ("nxt", State::PageLoadInProgress, State::PageLoaded, State::PageShown, Operation::LoadNextPage),
+    ] {
+        for n in [300usize, 70_000, 100_000, 100_001, 150_000] {
+            for tail in 0..3 {
+                let mut s: Vec<String> = vec![rs(a, trigger), ak(a, oper)];
+                for k in 0..n {
+                    s.push(rs(a, if k % 7 == 3 { if prog == State::PageShowInProgress { State::PageLoadInProgress } else { State::PageShowInProgress } } else { prog }));
+                }
+                match tail {
+                    0 => s.push(rs(a, target)),
+                    1 => s.push(rs(a, State::Unconfigured)),
+                    _ => {
+                        if n > 300 {
+                            continue;
+                        }
+                        s.push(rs(a, State::ShowingPages))
+                    }
+                }
+                let c = run_conv(op, 2, a, &[], "-", &s);
+                ex.out.stat("ctrl.long-poll");
+                ex.visit(&c);
+            }
+        }
+    }
 }
 
 /// Many large pages with a retry: a budget or a counter shared between attempts only shows when the chunks of
